@@ -173,6 +173,20 @@ func c17Calls(r *rand.Rand) []c17Call {
 			return normOut(buf.Bytes(), err)
 		}})
 	}
+	// one writer and one reader shared by all goroutines (instances are read-only while in use)
+	sharedW := writer.New(writer.WithFormat(formats.CDX15JSON))
+	sharedR := reader.New(reader.WithFormatOptions("shared", 1))
+	calls = append(calls, c17Call{"write-shared-writer", func() string {
+		var buf bytes.Buffer
+		err := sharedW.WriteStream(gen.Clone(cdxDoc), nopWC{&buf})
+		if err == nil {
+			if got, _, _ := sniffTracked(buf.Bytes()); got != formats.CDX15JSON {
+				return "WRONG-FORMAT:" + string(got)
+			}
+		}
+		return normOut(buf.Bytes(), err)
+	}})
+	calls = append(calls, c17Call{"parse-shared-reader", func() string { return digestDoc(sharedR.ParseStream(bytes.NewReader(spdxBytes))) }})
 	calls = append(calls, c17Call{"write-default-writer-no-format", func() string {
 		var buf bytes.Buffer
 		err := writer.New().WriteStream(gen.Clone(spdxDoc), nopWC{&buf})
@@ -333,7 +347,7 @@ func init() {
 	core.Register(&core.Prop{
 		ID: "C17", Level: "exploration",
 		Rule: "each round runs in a fresh process (library defaults) with the verif yield points installed (Gosched or a seeded sub-millisecond sleep at the five interleaving windows; the hook order is logged on a global logical clock): " +
-			"(a) every call of a fixed call set (sniff JSON / tag-value / garbage inputs; parse SPDX, CycloneDX and garbage; parse with reader options; write independent documents through writers built WithFormat(F) for 3 formats; default writer) is executed once sequentially, " +
+			"(a) every call of a fixed call set (sniff JSON / tag-value / garbage inputs; parse SPDX, CycloneDX and garbage; parse with reader options; write independent documents through writers built WithFormat(F) for 3 formats; one writer and one reader shared by all goroutines; default writer) is executed once sequentially, " +
 			"then G in {4,16,64} goroutines execute the calls concurrently while other goroutines churn both format registries on scratch keys; every concurrent result must equal the sequential one and a writer built WithFormat(F) must emit F; " +
 			"(b) a registry history (2-4 clients, <=200 operations on 2-3 contended scratch keys, call/return stamps from one atomic clock) is recorded for the unserializer and the serializer registry and checked for linearizability against a per-key register with porcupine (timeout = inconclusive). " +
 			"The same rounds run in a -race build whose GORACE logs are parsed (reports with protobom frames are violations); a runtime abort kills the child and is attributed to the round. " +
